@@ -53,7 +53,7 @@ def make_home(state, old, endpoint, timeout="400ms"):
         '[limits]\nenabled = false\n[colors]\nenabled = false\n' % (endpoint, timeout))
     cache = os.path.join(home, "cache", "rink", "currency.json")
     prev = None
-    if state in ("fresh", "stale"):
+    if state in ("fresh", "stale", "future"):
         prev = old
     elif state in ("unreadable_fresh", "unreadable_stale"):
         prev = b'{"this is": not json at all ['
@@ -61,6 +61,11 @@ def make_home(state, old, endpoint, timeout="400ms"):
         open(cache, "wb").write(prev)
         if state.endswith("stale"):
             t = time.time() - 7200
+            os.utime(cache, (t, t))
+        elif state == "future":
+            # modification time ahead of the clock (clock stepped back, restored directory): an existing cache whose
+            # age cannot be computed; the code treats it as not current
+            t = time.time() + 600
             os.utime(cache, (t, t))
     return home, cache, prev
 
@@ -187,7 +192,7 @@ def scenario(job):
         body_served = new if bname != "garbage" else (b"this is not json {{{" * 10)
         res["observed"] = {"rc": rc, "cache_before": None if before is None else len(before),
                            "cache_after": None if after is None else len(after), "stdout": out[-400:]}
-        fetched = (entry == "fetch") or state in ("absent", "stale", "unreadable_stale")
+        fetched = (entry == "fetch") or state in ("absent", "stale", "unreadable_stale", "future")
         # 1. cache bytes: previous or complete new, never anything else
         admissible = [before]
         if fetched and transfer_ok:
@@ -210,7 +215,7 @@ def scenario(job):
             have_rates = None
             if fetched and transfer_ok and bname != "garbage":
                 have_rates = "new"
-            elif not (fetched and transfer_ok) and state in ("fresh", "stale"):
+            elif not (fetched and transfer_ok) and state in ("fresh", "stale", "future"):
                 have_rates = "old"
             if have_rates == "new" and "0.5 EUR" not in out.replace("euro", "EUR"):
                 res["problems"].append(("new_rates_not_used", out[-300:]))
@@ -360,7 +365,7 @@ def run(tier, seed):
     try:
         rng = random.Random(seed)
         jobs = []
-        states = ["absent", "fresh", "stale", "unreadable_fresh", "unreadable_stale"]
+        states = ["absent", "fresh", "stale", "unreadable_fresh", "unreadable_stale", "future"]
         for state in states:
             for (bname, path, ok) in behaviours(len(new), tier):
                 for entry in ("startup", "fetch"):
